@@ -6,16 +6,19 @@ from .driver import drive
 RUNS = {'quick': 6000, 'thorough': 150000}
 
 RULE = (
-    'One evaluation = one simulated history: 40-80 steps over a pool of <=6 '
-    'OBDD slots and two variable orderings of a,b,c,d, drawn from the run '
-    'PRNG (swarm configuration per run: variable count, expression depth, '
-    'drop/deferred-drop/gc weights, mid-operation GC probability and mode, '
-    'allocation churn).  After every step J1 (== <=> same root <=> same '
+    'One evaluation = one simulated history: 40-80 steps (plus macro '
+    'sequences) over a pool of 6 or 10 OBDD slots and 2 or 3 variable '
+    'orderings of a universe of 4, 5 or 6 variables, drawn from the run PRNG '
+    '(swarm configuration per run: universe, variables used, expression '
+    'depth, drop/deferred-drop/gc weights, mid-operation GC probability and '
+    'mode (k-th line event, every k-th, j-th line inside a chosen function), '
+    'allocation churn, user errors whose exception objects are held for a '
+    'while, left-operand reuse).  After every step J1 (== <=> same root <=> same '
     'model truth table, for every pair of live slots with one ordering), '
     'J3 (no two live non-terminal nodes with one (var, low, high), none with '
     'low is high; scanned through gc.get_objects() and BDDNode.nodes()) and '
     'J4 (terminal singletons) are checked; J2 (diagram evaluates to the model '
-    'truth table on all 16 assignments) is evaluated and a mismatch is '
+    'truth table on all 2**n assignments) is evaluated and a mismatch is '
     'turned into a J1 witness against the parsed sum-of-products.  A history '
     'is NON-TRIVIAL when it contains >=1 combine, >=1 drop (either kind), '
     '>=1 collector run (between or inside operations) and >=1 pair of live '
@@ -29,8 +32,8 @@ ASSUMPTIONS = [
     'disabled and every collection is issued by the simulator',
     'mid-operation collections land on line events of Python frames in '
     'BDD.py, OBDD.py and _weakrefset.py (not inside C calls)',
-    'the truth-table model (16-bit integers) and the diagram walker are '
-    'trusted; <=4 variables, expression depth <=3',
+    'the truth-table model (2**n-bit integers, n<=6) and the diagram walker '
+    'are trusted; <=6 variables, expression depth <=3',
     'sampling, not enumeration: a clean batch is evidence, not proof',
 ]
 
